@@ -431,11 +431,228 @@ fn tab_twins(s: &mut Session, r: &mut Rng, n: usize) {
     }
 }
 
+// ------------------------------------------------------------------ iterator-driven completion of hidden bars
+const ITER_WAYS: [&str; 4] = ["hidden-target", "non-tty", "hidden-multi", "removed"];
+
+/// One bar, hidden in one of the four ways (or its visible twin), wrapped around `0..items` with
+/// `progress_with` (the iterator holds the only handle; getters through `it.progress`) or
+/// `wrap_iter` (another handle alive), driven `next()` by `next()` to exhaustion (+ one more call),
+/// optionally finished by hand half way.  Returns the model's view of the history, the
+/// observations (TermLike calls on the target terminal, getters after every step - in particular
+/// after the None, BEFORE any handle is dropped) and the index of the None steps.
+#[allow(clippy::too_many_arguments)]
+fn run_iter_twin(
+    way: usize,
+    visible: bool,
+    own: bool,
+    fin: &Fin,
+    len: Option<u64>,
+    items: u32,
+    early: bool,
+    gaps: &[u64],
+    w: u16,
+    nontty: &NonTty,
+) -> (Case, Vec<StepObs>, Vec<usize>) {
+    use indicatif::verif_clock as vc;
+    use indicatif::ProgressIterator;
+    vc::set_auto_step_ns(0);
+    vc::set_clock_ns(vc::ORIGIN_NS);
+    let spy = Spy::new(w, 40);
+    let term = |spy: &Spy| ProgressDrawTarget::term_like(Box::new(spy.clone()));
+    let tmpl = vec![TPart::Lit("A".into()), TPart::Pos, TPart::Lit(" ".into()), TPart::Msg];
+    let (mp_t, bar_t) = match (way, visible) {
+        (0, false) => (ProgressDrawTarget::hidden(), ProgressDrawTarget::hidden()),
+        (1, false) => (ProgressDrawTarget::hidden(), nontty.target()),
+        (0 | 1, true) => (ProgressDrawTarget::hidden(), term(&spy)),
+        (2, false) => (ProgressDrawTarget::hidden(), ProgressDrawTarget::hidden()),
+        _ => (term(&spy), ProgressDrawTarget::hidden()), // hidden-multi twin, removed (both runs)
+    };
+    let mp = MultiProgress::with_draw_target(mp_t);
+    let pb = ProgressBar::with_draw_target(len, bar_t).with_finish(fin_of(fin));
+    pb.set_style(style_of(&tmpl));
+    let mut ops: Vec<(u64, Op)> = vec![];
+    let mut obs: Vec<StepObs> = vec![];
+    let mut t = 0u64;
+    let mut gi = 0usize;
+    let mut tick = |t: &mut u64| {
+        *t += gaps[gi % gaps.len()];
+        gi += 1;
+        vc::set_clock_ns(vc::ORIGIN_NS + *t);
+    };
+    let pb = if way >= 2 {
+        tick(&mut t);
+        let p = mp.add(pb);
+        ops.push((t, Op::Insert(Loc::End, 0)));
+        obs.push(StepObs { emitted: spy.take(), ok: true, getters: vec![Some(get(&p))], panic: None });
+        if way == 3 && !visible {
+            tick(&mut t);
+            mp.remove(&p);
+            ops.push((t, Op::Remove(0)));
+            obs.push(StepObs { emitted: spy.take(), ok: true, getters: vec![Some(get(&p))], panic: None });
+        }
+        p
+    } else {
+        pb
+    };
+    tick(&mut t);
+    pb.set_message("m");
+    ops.push((t, Op::SetMsg(0, "m".into())));
+    obs.push(StepObs { emitted: spy.take(), ok: true, getters: vec![Some(get(&pb))], panic: None });
+    let keep = if own { None } else { Some(pb.clone()) };
+    let mut it = (0..items).progress_with(pb);
+    let mut nones = vec![];
+    let mut calls = 0u32;
+    loop {
+        if early && calls == items / 2 {
+            tick(&mut t);
+            let r = catch(|| it.progress.abandon_with_message("early"));
+            ops.push((t, Op::Finish(0, Fin::AbandonWithMessage("early".into()))));
+            obs.push(StepObs { emitted: spy.take(), ok: true, getters: vec![Some(get(&it.progress))], panic: r.err() });
+        }
+        tick(&mut t);
+        let item = catch(|| it.next());
+        calls += 1;
+        let emitted = spy.take();
+        // the getters are read through a live handle, BEFORE anything is dropped
+        let g = catch(|| get(&it.progress)).ok();
+        match item {
+            Err(e) => {
+                ops.push((t, Op::Inc(0, 1)));
+                obs.push(StepObs { emitted, ok: true, getters: vec![g], panic: Some(e) });
+                break;
+            }
+            Ok(Some(_)) => {
+                ops.push((t, Op::Inc(0, 1)));
+                obs.push(StepObs { emitted, ok: true, getters: vec![g], panic: None });
+            }
+            Ok(None) => {
+                nones.push(ops.len());
+                ops.push((t, Op::FinishUsingStyle(0))); // the oracle's/description's view; the model evaluates IterNone
+                obs.push(StepObs { emitted, ok: true, getters: vec![g], panic: None });
+                if nones.len() == 2 {
+                    break; // an exhausted iterator polled once more: nothing may change
+                }
+            }
+        }
+    }
+    tick(&mut t);
+    let r = catch(move || {
+        drop(it);
+        drop(keep);
+    });
+    ops.push((t, Op::Drop(0)));
+    obs.push(StepObs { emitted: spy.take(), ok: true, getters: vec![None], panic: r.err() });
+    let _ = catch(move || drop(mp));
+    let case = Case {
+        w,
+        h: 40,
+        fail_at: vec![],
+        fail_from: None,
+        mp: match (way, visible) {
+            (0 | 1, _) | (2, false) => TInit::Hidden,
+            _ => TInit::Term(None),
+        },
+        bars: vec![BarInit { len, fin: fin.clone(), tmpl, target: if visible && way < 2 { TInit::Term(None) } else { TInit::Hidden } }],
+        ops,
+    };
+    (case, obs, nones)
+}
+
+fn iter_twins(s: &mut Session, r: &mut Rng, rounds: usize, nontty: &NonTty) {
+    let fins = [
+        Fin::AndLeave,
+        Fin::WithMessage("done".into()),
+        Fin::AndClear,
+        Fin::Abandon,
+        Fin::AbandonWithMessage("gone".into()),
+    ];
+    for _ in 0..rounds {
+        for way in 0..4 {
+            for own in [true, false] {
+                for fin in &fins {
+                    let items = r.below(7) as u32;
+                    let len = match r.below(3) {
+                        0 => None,
+                        1 => Some(items as u64 + r.below(4)),
+                        _ => Some(items as u64),
+                    };
+                    let early = r.chance(1, 5);
+                    let w = *r.pick(&[8u16, 20]);
+                    let gaps: Vec<u64> = (0..8).map(|_| *r.pick(&[0u64, 1, 1000, 60_000_000])).collect();
+                    let before = nontty.written();
+                    let (case, obs, nones) = run_iter_twin(way, false, own, fin, len, items, early, &gaps, w, nontty);
+                    let (_tc, tobs, _) = run_iter_twin(way, true, own, fin, len, items, early, &gaps, w, nontty);
+                    let desc = format!(
+                        "iterator way={} adaptor={} fin={:?} items={items} early-finish={early} {}",
+                        ITER_WAYS[way],
+                        if own { "progress_with(only handle)" } else { "wrap_iter(other handle alive)" },
+                        fin,
+                        describe(&case)
+                    );
+                    s.count(&format!("iter-way:{}", ITER_WAYS[way]));
+                    s.count(if own { "iter-adaptor:progress_with" } else { "iter-adaptor:wrap_iter" });
+                    s.count(&format!("iter-fin:{}", Op::Finish(0, fin.clone()).name()));
+                    if let Some(p) = obs.iter().chain(tobs.iter()).find_map(|o| o.panic.clone()) {
+                        s.fail("panic", p, desc.clone());
+                        continue;
+                    }
+                    // silence of the hidden bar: from the point where it is hidden (way "removed":
+                    // after the remove) no TermLike call, no byte
+                    let from = case.ops.iter().position(|(_, o)| matches!(o, Op::Remove(_))).map_or(0, |k| k + 1);
+                    if let Some((k, o)) = obs.iter().enumerate().skip(from).find(|(_, o)| !o.emitted.is_empty()) {
+                        s.fail(
+                            &format!("hidden-target-call:{}", ITER_WAYS[way]),
+                            format!("step {k} {:?} of a hidden bar made TermLike calls {:?}", case.ops[k].1, o.emitted),
+                            desc.clone(),
+                        );
+                    }
+                    if nontty.written() != before {
+                        s.fail("non-tty-bytes-written", "bytes reached a writer that is not a tty".into(), desc.clone());
+                        nontty.buf.lock().unwrap().clear();
+                    }
+                    // getters of the hidden bar = getters of the visible twin after EVERY step; the
+                    // twin of a removed bar has no remove step: align at the end
+                    let skip = obs.len() - tobs.len();
+                    for (k, t) in tobs.iter().enumerate() {
+                        let o = &obs[k + if k >= from.saturating_sub(skip) { skip } else { 0 }];
+                        if o.getters != t.getters {
+                            s.fail(
+                                &format!("hidden-getter-mismatch:iterator:{}", ITER_WAYS[way]),
+                                format!(
+                                    "after step {k} ({:?}): hidden bar {:?}, visible twin {:?}",
+                                    _tc.ops[k].1, o.getters, t.getters
+                                ),
+                                desc.clone(),
+                            );
+                            break;
+                        }
+                    }
+                    // the model: the None steps are IterNone (iter_none_step), everything else an op
+                    let n = obs.len();
+                    let iops: Vec<String> = case.ops[..n]
+                        .iter()
+                        .enumerate()
+                        .map(|(i, (t, o))| if nones.contains(&i) { format!("({t}, IterNone 0)") } else { format!("({t}, IOp ({}))", cop(o)) })
+                        .collect();
+                    let term = format!("(CIter {} {})", coq_case(&case, &obs).replacen("(mkcase ", "(SysCheck.mkcase ", 1), clist(iops));
+                    s.case(term, desc, true);
+                }
+            }
+        }
+    }
+}
+
 fn main() {
     let a = args();
-    let mut s = Session::new(&a, "C06", COQ_HEADER, COQ_CASE_TY, COQ_CHECKER);
+    // c04case of model/SimCheck.v: ordinary system cases (`mkcase` is a notation wrapping them) and
+    // iterator-driven histories whose end is evaluated with iter_none_step
+    let header = format!(
+        "{}From IndModel Require Import SimCheck.\nNotation mkcase := (fun a b c d e f g h => CSys (SysCheck.mkcase a b c d e f g h)).\n",
+        COQ_HEADER
+    );
+    let mut s = Session::new(&a, "C06", &header, "c04case", "c04_check");
     s.shard_size = 150;
-    s.rule = "histories of 5-35 ops over 1-3 bars drawing on every public op (tick/inc/dec/set_position/length ops/set_message/set_prefix/set_style/println/suspend/reset*/finish variants/finish_using_style/force_draw/set_tab_width/drop/add/insert*/remove, mp.println/suspend/clear/set_alignment), in four configurations: all targets ProgressDrawTarget::hidden(); members of a hidden MultiProgress; bars removed from a visible MultiProgress; mixed hidden/visible. Each history also runs on a visible twin (hidden targets replaced by terminals) and, for the first two configurations, with a console::Term that is not a tty (bars resp. the MultiProgress), also constructed with refresh rate 0 (documented panic at construction, or as silent as any other rate). Oracle: calls with a hidden subject make no TermLike call / write no byte; getters equal the twin's after every op; is_hidden(). non-trivial = at least 5 ops with a hidden subject and the twin emitted calls; distinct = distinct case text".into();
+    s.rule = "histories of 5-35 ops over 1-3 bars drawing on every public op (tick/inc/dec/set_position/length ops/set_message/set_prefix/set_style/println/suspend/reset*/finish variants/finish_using_style/force_draw/set_tab_width/drop/add/insert*/remove, mp.println/suspend/clear/set_alignment), in four configurations: all targets ProgressDrawTarget::hidden(); members of a hidden MultiProgress; bars removed from a visible MultiProgress; mixed hidden/visible. Each history also runs on a visible twin (hidden targets replaced by terminals) and, for the first two configurations, with a console::Term that is not a tty (bars resp. the MultiProgress), also constructed with refresh rate 0 (documented panic at construction, or as silent as any other rate). Plus iterator-driven completion: one bar hidden in each of the four ways (hidden target, non-tty Term, member of a hidden MultiProgress, removed bar) x {progress_with: only handle, wrap_iter: other handle alive} x the five ProgressFinish variants, driven next() by next() to exhaustion and once more, getters read through a live handle after every step (before anything is dropped) and compared with the visible twin; the None steps are evaluated in the model with iter_none_step (CIter cases). Oracle: calls with a hidden subject make no TermLike call / write no byte; getters equal the twin's after every op; is_hidden(). non-trivial = at least 5 ops with a hidden subject and the twin emitted calls; distinct = distinct case text".into();
     let mut r = Rng::new(a.seed);
     let n = if a.thorough { 4000 } else if a.extended { 2500 } else { 400 };
     let nontty = NonTty::new(&a.out);
@@ -604,7 +821,9 @@ fn main() {
         }
         s.oracle_only(format!("constructor probe {name} (stream is a tty: {is_tty})"), !is_tty);
     }
-    let _ = std::fs::remove_file(&nontty.path);
+    let nontty_iter = NonTty::new(&a.out);
     tab_twins(&mut s, &mut r, if a.thorough { 1500 } else { 200 });
+    iter_twins(&mut s, &mut r, if a.thorough { 12 } else { 2 }, &nontty_iter);
+    let _ = std::fs::remove_file(&nontty_iter.path);
     s.finish();
 }
